@@ -34,6 +34,11 @@ pub fn run_streaming(file: &[u8], cuts: &[usize], opts: &[bool; 5]) -> String {
             let mut buf = &file[w[0]..w[1]];
             while !buf.is_empty() {
                 calls += 1;
+                if calls > crate::util::spin_budget(file.len()) {
+                    // the decoder makes no progress (C07's business); never hang the harness on it
+                    err = "SPIN".to_string();
+                    break 'outer;
+                }
                 match dec.update(buf, &mut image_data) {
                     Ok((n, ev)) => {
                         if let Some(s) = event_canon(&ev, &image_data[flushed_at..]) {
